@@ -27,7 +27,7 @@ CHECKS = {
          "a range pattern applied to a scrutinee of another kind is a don't-care zone", "DESIGN.md §4 C05"),
  "C06": ("p2v-inproc", "exhaustive value-kind x truthiness-position table and all ordered pairs for && / || with side-effect probes; proptest nested logical trees; documented table as oracle",
          "27 representative values in every truthiness position (!v, !!v, if, else-if, while, &&, ||) and all 27x27 pairs for && and || with a probe around the right operand are checked against the documented truthiness table; the result must be the operand value and the probe must fire exactly when stated.",
-         "filter-pattern position is exercised end to end under C20", "DESIGN.md §4 C06"),
+         "the filter-pattern position is exercised through the real binary (each value and derived && / || / ! expressions as the pattern of a filter with and without an action)", "DESIGN.md §4 C06, §8.5"),
  "C07": ("p2v-inproc", "proptest statement sequences stepped REPL-style with the operand-stack height read through a hook after every top-level statement; 10^4-iteration loops must not overflow; named detector for the known finding",
          "Generated statement sequences (if/match as operands, branches ending in nested blocks/lets/nothing, break/continue inside operand positions) are compiled and run one top-level statement at a time the way the REPL does; the VM's stack height must be 0 after each. Loops of 10^4 iterations around generated statements must not report a stack overflow and must agree with the reference.",
          "needs hook VM::verif_sp; statement stepping replicates run_prompt via the public Compiler/VM API", "DESIGN.md §4 C07"),
@@ -39,7 +39,7 @@ CHECKS = {
          "contract table transcribed from docs/language/builtins.md (DESIGN.md Appendix C) with its don't-care zones", "DESIGN.md §4 C11, Appendix C"),
  "C12": ("p2v-inproc", "proptest grammar-based generator of format strings and argument lists; differential against a reference renderer; malformed specifiers for crash-freedom",
          "Format strings generated from the specifier grammar (mixing indexed and positional specifiers, fills, widths, alignment, b/o/x/X) with random argument lists are rendered by format() in-process and compared with an independent reference renderer; malformed specifiers must not crash.",
-         "print/println/eprint/eprintln are covered end to end by the e2e checks; display of floats/chars/bytes/containers is a don't-care zone", "DESIGN.md §4 C12"),
+         "print/println/eprint/eprintln are run through the real binary (text on the right stream, returned byte length); display of chars/bytes/containers is a don't-care zone", "DESIGN.md §4 C12, §8.5"),
  "C13": ("p2v-inproc", "proptest generator placing one failing single-line construct at a known line after random filler (functions, filters, multi-line literals, CRLF); oracle: reported line == constructed line",
          "Programs with 0..14 filler constructs followed by exactly one failing construct (66 kinds: division by zero, bad index/key, operand kinds, unary, non-function call, arity, every pure builtin, property access) at top level, in functions, closures, loops or nested expressions; the runtime error must carry the line the construct was written on.",
          "only single-line constructs are generated (the property's proviso)", "DESIGN.md §4 C13"),
@@ -48,7 +48,7 @@ CHECKS = {
          "global-index and array/map-literal limit programs take minutes to compile and run in the thorough tier only", "DESIGN.md §4 C14"),
  "C15": ("p2v-inproc", "proptest structure-aware frame generator x random read-only access histories; identity oracle on the serialised packet (bytes in = bytes out), truncation sweeps at every length, same identity through pcap_write / write into scratch files",
          "Frames of every supported layer stack (incl. VLAN/QinQ, IPv4 and TCP options, IPv6-in-IPv4, truncated and corrupted frames) are wrapped in a packet through a hook constructor; a generated history of read-only accesses ($n, named layers, fields, payload, str()) runs through the real pipeline and the packet is then serialised in-process and through pcap_write/write: the bytes must equal record header + captured bytes, and no access may crash.",
-         "needs hook PcapPacket::verif_new; filter-mode output of untouched packets is additionally covered end to end under C20", "DESIGN.md §4 C15"),
+         "needs hook PcapPacket::verif_new; the filter-mode route is run through the real binary (streams of generated frames, read-only filter programs, output stream must equal the input stream)", "DESIGN.md §4 C15, §8.5"),
  "C16": ("p2v-inproc", "per-field value sweeps and exhaustive dispatch-field enumeration (65536 EtherTypes, 256 protocols / next headers) over generated frames; differential against a reference bit-offset/width table and reference layer dispatch",
          "Every readable property of the Ethernet, VLAN, IPv4, IPv6, TCP and UDP objects is read from frames in which the field takes all (<= 8 bits) or boundary + random values with random surrounding bits and compared with the reference extraction; $n and the named layer properties must descend exactly into the layer the dispatch field selects; random structure-aware frames are read in full.",
          "reference table = DESIGN.md Appendix B (RFC 791/8200/9293/768, IEEE 802.1Q); TCP flags with non-zero reserved bits accept 8/9/12-bit readings", "DESIGN.md §4 C16, Appendix B"),
